@@ -216,6 +216,9 @@ class MemMixin:
             st.cells[cell] = val
             return
         root = self.get_cell(st, cell)
+        if isinstance(root, VVec) and len(path) == 1 and path[0][0] in ("e", "ei") and isinstance(val, VInt):
+            # one element of a buffer overwritten (element-wise copy loops are summarised from these)
+            st.emit(("elemstore", cell, path[0][1] if path[0][0] == "ei" else Lin.const(path[0][1]), val))
         st.cells[cell] = self.updated(st, root, path, val)
 
     def updated(self, st, v, path, val):
